@@ -274,7 +274,9 @@ fn decode_history<F: Family>(input: &Input, ctx: &mut Ctx) -> CaseResult {
             Ok(q) if q == p => {}
             other => viol!("operation {} of a decoder history ({} abandoned before): async decoder returned {:?}, expected {}", i + 1, abandoned, other.map(|q| fam::render(&q)), fam::render(&p)),
         }
-        let run = fam::dec_poll_scripted::<F>(&enc, &steps, t.u16() as u64, None, false);
+        let mask = t.u16() as u64;
+        let style = t.pick(4) as u8;
+        let run = fam::dec_poll_styled::<F>(&enc, &steps, mask, None, false, style);
         match run.result {
             Ok(ok) if ok.pkt == p && ok.total == enc.len() => {}
             other => viol!("operation {} of a decoder history ({} abandoned before): poll decoder returned {:?}, expected {}", i + 1, abandoned, other.map(|q| fam::render(&q.pkt)), fam::render(&p)),
